@@ -88,7 +88,7 @@ def rtKind : Rt → String
   | .timeout => "timeout" | .broken => "broken" | .other => "other" | .panic => "panic"
 
 def cfgOf (p : TOp) : Cfg :=
-  ⟨p.rm, 0, p.rl, 0, 0, 0, [⟨"a", 1, false, (List.range p.nb).map fun _ => ⟨true, 1⟩⟩]⟩
+  ⟨p.rm, 0, p.rl, 0, 0, 0, [⟨"a", 1, false, (List.range p.nb).map fun _ => ⟨true, 1⟩⟩], 0⟩
 
 /-- run request after request (clusterInvoke then FinishReq), scripts = the observed kinds -/
 def runT (p : TOp) (impl : String) : String :=
